@@ -54,6 +54,22 @@ pub fn triggers() -> Vec<String> {
             }
         }
     }
+    // classes containing escaped metacharacters, next to groups (the analyze
+    // nesting table scans the pattern text)
+    for e in ["\\]", "\\[", "\\(", "\\)", "\\\\", "\\-", "\\^"] {
+        for other in ["", "x", ")", "(", "a-c"] {
+            let cls = format!("[{}{}]", e, other);
+            let cls2 = format!("[{}{}]", other, e);
+            let ncls = format!("[^{}{}]", e, other);
+            for c in [&cls, &cls2, &ncls] {
+                v.push(c.to_string());
+                v.push(format!("{}+", c));
+                v.push(format!("{}(a?)", c));
+                v.push(format!("(a){}", c));
+                v.push(format!("({}|a)b", c));
+            }
+        }
+    }
     for n in 1..=5 {
         v.push("a".repeat(n));
         v.push(format!("(?:a|b){{{}}}", n));
@@ -71,11 +87,15 @@ fn space_for(tier: Tier) -> (Space, usize) {
     match tier {
         Tier::Quick => {
             s.ast("K", 4, 64).ast("CL", 3, 64).ast("Q", 2, 64);
+            s.ast_range("LP", 1, 3, 32, 5);
+            s.ast_range("ALT", 1, 3, 32, 4);
             s.list("triggers", t, 16);
             (s, 3)
         }
         Tier::Thorough => {
             s.ast("K", 5, 64).ast("CL", 4, 64).ast("Q", 3, 64).ast("AN", 4, 64).ast("G", 4, 64);
+            s.ast_range("LP", 1, 4, 32, 6);
+            s.ast_range("ALT", 1, 4, 32, 4);
             s.list("triggers", t, 16);
             (s, 4)
         }
@@ -209,6 +229,7 @@ impl Check for C08 {
             SegKind::Ast { scope, .. } => crate::gen::scope(scope).sigma,
             _ => unreachable!(),
         };
+        let maxlen = if seg.param > 0 { seg.param } else { maxlen };
         let inputs = all_strings(&sigma, maxlen);
         space::for_each_text(seg, lo, hi, &mut |_i, text| {
             let parsed = match common::ref_valid(text, ctx) {
